@@ -155,6 +155,19 @@ CHECKS["C20"] = dict(engine="func-lru", ref="4 (Engine FUNC, C20)",
          "execution per key in flight, callers see only the value / the function's own exception / their own cancellation, "
          "retained results <= maxsize (behavioural probe), served values younger than ttl. Exploration level.")
 
+CHECKS["C16"] = dict(engine="bytes-wrappers", ref="4 (Engine BYTES, C16)",
+    technique="deterministic simulation of the delivery schedule: enumerated small inputs x seeded chunkings / delays / EOF / "
+              "feed_data / mid-call cancellations over an in-memory Wire, byte-queue reference model with a conservation "
+              "oracle; text wrappers over all split points and send->receive round trips",
+    text="Every byte string over {a,b,|} up to length 6 is enumerated; per input, seeded wire kinds (byte stream honouring "
+         "max_bytes / object stream of bytes), fragment sizes, delays, call sequences (receive, receive_exactly, "
+         "receive_until with 4 delimiters and all small max_bytes, feed_data) and deadlines that cancel a call mid-way (then "
+         "retried). Oracle: handed-out bytes + consumed delimiters are a prefix of the input and handed out + buffer + wire is "
+         "always the whole input; size rules; IncompleteRead only at EOF; DelimiterNotFound only if absent from the first "
+         "max_bytes bytes; failed or cancelled calls consume nothing. Text: 6 encodings incl. BOM-carrying ones, every 2-way "
+         "split and random splits, receive == decoding of the whole, TextSendStream -> TextReceiveStream is the identity. "
+         "Inputs enumerated, schedules sampled: exploration level.")
+
 NOT_YET = "check not built yet in this snapshot of /verif (work in progress; see DESIGN.md section 4 for the plan)"
 
 
@@ -179,7 +192,7 @@ def main():
     engines = {}
     for pid, c in CHECKS.items():
         engines.setdefault(c["engine"], []).append(pid)
-    paths = {"sync-permits": "engines/permits.py", "sc": "engines/sc.py", "sync-conditions": "engines/conds.py", "sync-checkpoints": "engines/checkpoints.py", "mem": "engines/mem.py", "sc-deadlines": "engines/deadlines.py", "func-itertools": "engines/func_iter.py", "func-lru": "engines/func_lru.py"}
+    paths = {"sync-permits": "engines/permits.py", "sc": "engines/sc.py", "sync-conditions": "engines/conds.py", "sync-checkpoints": "engines/checkpoints.py", "mem": "engines/mem.py", "sc-deadlines": "engines/deadlines.py", "func-itertools": "engines/func_iter.py", "func-lru": "engines/func_lru.py", "bytes-wrappers": "engines/bytes_buffered.py"}
     try:
         hooks = [l.split()[0] for l in subprocess.run(
             ["git", "-C", "/repo", "log", "--format=%h %s", "--grep=^hook:"], capture_output=True, text=True
